@@ -17,3 +17,6 @@ def run(ctx):
     run_e1(ctx, DECODE_ROOTS, rule='E1-panic', wide='mul')
     r.floor('W1-depth-lock', 'decoder_sccs', r.counts.get('decoder_sccs', 0), 2)
     r.floor('W1-depth-lock', 'depth_lock_sites', r.counts.get('depth_lock_sites', 0), 2)
+    # allocation bound at the frame layer: the decoder must not wait for (= buffer) a frame larger than the limit (rule shared with C10)
+    from .C10 import codec_wait_bounded
+    codec_wait_bounded(ctx)
